@@ -191,6 +191,12 @@ def run(ctx):
     meta_sched, meta_sweep, meta_conc = res["sched"], res["sweep"], res["conc"]
     exercised, cover = res["exercised"], res["cover"]
 
+    # The scheduler's lock is probed at the end of every scheduler trace
+    # (verdict C14:scheduler-lock-left-behind of SchedTrace.tla); that family
+    # is validated once per binary/specs/seed/tier and shared with C01-C07.
+    from checks import sched
+    sched.run_parts(ctx)
+
     return vlib.finish(
         ctx,
         rule=("TLC explores LockPile.tla exhaustively (threads x TryLockers, requests in any order, pile extension, "
@@ -204,8 +210,9 @@ def run(ctx):
               "IdleInvoker, sector allocator; after every call all known locks are probed with TryLock hooks. "
               "Concurrent workers on one tree with a watchdog for 'all workers parked in a mutex'."),
         explanation="model checking of lock_pile.go + conformance/lock probing of the real code",
-        exhaustive=True,
-        extra={"lockpile_schedules": meta_sched, "dir_sweep": meta_sweep,
+        exhaustive=False,
+        extra={"exhaustive_part": "LockPile.tla model checking of the bounded configurations",
+               "lockpile_schedules": meta_sched, "dir_sweep": meta_sweep,
                "concurrent": {k: meta_conc.get(k) for k in ("rounds", "workers", "calls")},
                "concurrent_outcomes": meta_conc.get("pairs", {}),
                "outcome_classes": exercised, "statement_coverage": cover},
